@@ -409,6 +409,15 @@ func (w *world) apply(ev string) string {
 			return "rejected"
 		}
 		return "accepted"
+	case "stab": // stab <name>: the confirm of another deputy arrives: the block (and its unstable ancestors) becomes stable, other forks are pruned
+		b := w.named[f[1]]
+		w.o.Use()
+		before := w.o.BC.StableBlock().Height()
+		w.o.BC.InsertConfirms(b.Height(), b.Hash(), []types.SignData{node.SignConfirm(node.Deputy((w.rankOf(b)+1)%w.n), b.Hash())})
+		if w.o.BC.StableBlock().Height() > before {
+			return "stable"
+		}
+		return "no-change"
 	case "restart":
 		dir, self := w.o.Dir, w.o.Self
 		w.o.Close()
@@ -473,6 +482,7 @@ var lists = map[string][]string{
 	"fork":  {"-", "T", "T2", "T3", "B", "U"},
 	"miner": {"T", "U"},
 	"ms":    {"M", "M2", "M3", "BB", "T"},
+	"prune": {"T", "-"},
 	"msm":   {"M", "M2", "M3", "BB"},
 }
 
@@ -492,6 +502,23 @@ func (w *world) enabled(evs []string, results []string) []string {
 			}
 		}
 		en = append(en, "restart")
+	case "prune":
+		// the same payload on sibling forks, a stable advance that prunes the loser, the payload again
+		stableH := w.o.BC.StableBlock().Height()
+		for _, name := range w.heldNames() {
+			p := w.named[name]
+			if p.Height() < stableH || p.Height() >= 4 {
+				continue
+			}
+			for _, l := range lists["prune"] {
+				for _, r := range []int{1, 2} {
+					en = append(en, fmt.Sprintf("blk %s +slot on %s by %d", l, name, (w.rankOf(p)+r)%w.n))
+				}
+			}
+			if p.Height() > stableH {
+				en = append(en, "stab "+name)
+			}
+		}
 	case "ms":
 		// signature lists of a multi-signature payload and a box carrying one payload twice, offered by blocks
 		head := w.o.BC.CurrentBlock()
@@ -591,7 +618,7 @@ func (w *world) heldNames() []string {
 
 func run(hist []string) core.Outcome {
 	if len(hist) == 0 {
-		return core.Outcome{Key: "root", Enabled: []string{"fork", "lin", "miner", "ms", "msm", "rst"}}
+		return core.Outcome{Key: "root", Enabled: []string{"fork", "lin", "miner", "ms", "msm", "prune", "rst"}}
 	}
 	w := newWorld(hist[0])
 	defer w.close()
@@ -681,14 +708,14 @@ func (w *world) parentOfOrGenesis(b *types.Block) *types.Block {
 	return w.parentOf(b)
 }
 
-var depth = map[string]int{"lin": 3, "fork": 3, "miner": 4, "rst": 4, "ms": 3, "msm": 4}
+var depth = map[string]int{"lin": 3, "fork": 3, "miner": 4, "rst": 4, "ms": 3, "msm": 4, "prune": 4}
 
 func main() {
 	core.ParseFlags()
 	node.Quiet()
 	txs = mkTxs()
 	if core.Thorough() {
-		depth = map[string]int{"lin": 4, "fork": 4, "miner": 5, "rst": 6, "ms": 4, "msm": 5}
+		depth = map[string]int{"lin": 4, "fork": 4, "miner": 5, "rst": 6, "ms": 4, "msm": 5, "prune": 5}
 	} else {
 		// quick: without the instant 59 s before the last second of the window (bucket edge inside the window)
 		instants = []int{-1, 0, 1799, 1800, 1801, 1861}
